@@ -791,8 +791,14 @@ def dict_eq(a, b):
 # =============================================================================== C16
 def o_handler(v: View, stats=None):
     cfg = v.cfg
-    place = v.sc.get("place") or {}
+    place = dict(v.sc.get("place") or {})
     deco = v.rec.entry.lstrip("a").startswith("deco")
+    if not deco:
+        # per-call arguments this particular call did not pass
+        for kw_, name in (("sleep", "handler"), ("before_sleep", "before_sleep"), ("sleeper", "sleeper")):
+            if kw_ in (v.env.get("drop_call_kw") or ()):
+                cur = place.get(name, "call" if name == "sleeper" else "none")
+                place[name] = {"call": "none", "both": "policy"}.get(cur, cur)
 
     def winner(where):
         if where in (None, "none"):
